@@ -170,10 +170,14 @@ PROPS = {
     "C17": {
         "harness": "c17",
         "theorems": ["DL.C17_tables", "DL.C17_parameter_rows", "DL.C17_constant_rows", "DL.C17_option", "DL.C17_option_absent", "DL.C17_coupling",
-                     "DL.C17_expand_node", "DL.C17_expand_combinations", "DL.C17_expand_leaf", "DL.C17_expand_replace", "DL.C17_policy"],
+                     "DL.C17_expand_node", "DL.C17_expand_combinations", "DL.C17_expand_leaf", "DL.C17_expand_replace", "DL.C17_policy", "DL.C17_read_simple", "DL.C17_read_layout", "DL.C17_layout_irrelevant", "DL.C17_readAmp_layout_mapM",
+                     "DL.C17_readAmp_layout", "DL.C17_readAmp_simple", "DL.C17_exPlain", "DL.C17_exFancy", "DL.C17_exFancy_exPlain"],
         "partial": ["the reading of the options text into statements is modelled by the scannerless reader DL/Model/AmpRead.lean (readAmpText / readAmp) "
                     "and tied to Lark on the repository's grammar on every run (well-formed, malformed and fixed edge-case texts, accept/reject and "
-                    "statements); there are no theorems about that reader yet, and the Lark engine itself is modelled, not verified",
+                    "statements); C17_read_layout: that reader returns the statement list from every rendering under a good layout (blank runs, also "
+                    "inside decay trees, comments, blank and comment lines, LF/CRLF, a last comment without line end) for statements meeting the "
+                    "decidable AStmtOK; the model renders generated statement lists under seeded layouts and the real parser reads that very text "
+                    "on every run (driver op amp_render_layout); the Lark engine itself is modelled, not verified",
                     "exp(i phase) is not modelled: couplings stay symbolic (interpretation flag + the two numerals); the harness compares the "
                     "complex numbers to 1e-12", "particle_from_string_name is an oracle parameter (sent with each operation)"],
         "assumptions": ["fix flags are integers (AmpGen convention 0/1/2)"],
